@@ -352,7 +352,11 @@ func nativeReplay(repo, overlayJSON, pkgDir, replayPath string, gomaxprocs strin
 func reproduced(f *Finding, result string) bool {
 	switch f.Kind {
 	case "assert":
-		return strings.HasPrefix(result, "assert-failed "+f.Label)
+		// the native run stops at the first failing assertion of the harness,
+		// which may be an earlier one than the solver's (e.g. one the solver
+		// answered unknown for); any failed assertion of the real code on the
+		// model input is a reproduced violation
+		return strings.HasPrefix(result, "assert-failed ")
 	case "panic":
 		return strings.HasPrefix(result, "panic")
 	case "nontermination":
